@@ -574,7 +574,8 @@ func MustFEN(s string) Pos {
 
 // Valid reports whether p is a valid position in the sense of the listed
 // properties: one king per side, no pawns on ranks 1/8, material reachable by
-// promotion, side not to move not in check, castling rights only with king and
+// promotion (same-coloured bishop pairs count as promoted), side not to move not in check, at most a double
+// check and then with a slider (nothing else is reachable), castling rights only with king and
 // rook at home, en-passant target only directly behind a pawn that could just
 // have double pushed (target and origin squares empty), clocks in range.
 func (p *Pos) Valid() error {
@@ -599,13 +600,34 @@ func (p *Pos) Valid() error {
 		if cnt[side][King] != 1 {
 			return fmt.Errorf("king count")
 		}
-		extra := max(0, cnt[side][Knight]-2) + max(0, cnt[side][Bishop]-2) + max(0, cnt[side][Rook]-2) + max(0, cnt[side][Queen]-1)
+		// bishops beyond one per square colour are promoted ones too
+		var onColour [2]int
+		for sq, c := range p.Sq {
+			if kind(c) == Bishop && (c < 0) == (side == 1) {
+				onColour[(sq/8+sq%8)%2]++
+			}
+		}
+		extra := max(0, cnt[side][Knight]-2) + max(0, onColour[0]-1) + max(0, onColour[1]-1) + max(0, cnt[side][Rook]-2) + max(0, cnt[side][Queen]-1)
 		if cnt[side][Pawn]+extra > 8 {
 			return fmt.Errorf("material not reachable")
 		}
 	}
 	if p.InCheck(!p.White) {
 		return fmt.Errorf("side not to move in check")
+	}
+	// no move gives more than a double check, and a double check needs a discovered slider
+	if ch := p.AttackersOf(p.KingSq(p.White), !p.White); len(ch) > 2 {
+		return fmt.Errorf("more than two checkers")
+	} else if len(ch) == 2 {
+		slider := false
+		for _, sq := range ch {
+			if k := kind(p.Sq[sq]); k == Bishop || k == Rook || k == Queen {
+				slider = true
+			}
+		}
+		if !slider {
+			return fmt.Errorf("double check without a slider")
+		}
 	}
 	if p.Castle[WK] && (p.Sq[4] != King || p.Sq[7] != Rook) {
 		return fmt.Errorf("castle K")
